@@ -183,6 +183,19 @@ structure ArrNew where
   counter : CounterNew
   deriving Repr
 
+/-- the sequential iterator handed to `ConIterOfIter::new`: what `size_hint()` returns for it -/
+structure WrappedIt where
+  hint : Nat × Option Nat
+  deriving Repr
+/-- a freshly constructed `ConIterOfIter` -/
+structure IterNew where
+  iter : WrappedIt
+  initial_len : Option Nat
+  reserved_counter : CounterNew
+  yielded_counter : CounterNew
+  completed : Bool
+  deriving Repr
+
 /-! ## `usize` arithmetic -/
 
 def m_unsupported {α} (_what : String) : M α := M.failWith .unsupported
@@ -348,6 +361,8 @@ instance : MStore AtomicBoolH Bool :=
   ⟨fun h v o st => .ok () { st with completed := v, evs := st.evs ++ [.st h.loc o (if v then 1 else 0)] }⟩
 
 def ManuallyDrop_new {α : Type} (a : α) : M α := pure a
+/-- `Iterator::size_hint` of the iterator about to be wrapped -/
+def m_size_hint (w : WrappedIt) : M (Nat × Option Nat) := pure w.hint
 
 class MAsSlice (C : Type) where
   m_as_slice : C → M SliceObj
